@@ -1025,11 +1025,11 @@ func Run(r *corr.Run) {
 	// stateful multi-message sequences (tree, acl)
 	tf := w.newTreeFixture()
 	defer tf.close()
-	for k := 1; k <= 6; k++ {
+	for k := 1; k <= 8 && w.hangs < 3; k++ {
 		w.treeSequence(tf, k, false)
 		w.treeSequence(tf, k, true)
 	}
-	for k := 1; k <= 12; k++ { // refused-by-the-validator batches, then valid changes / local writes
+	for k := 1; k <= 12 && w.hangs < 3; k++ { // refused-by-the-validator batches, then valid changes / local writes
 		w.verifTreeSequence(tf, k, k%3 == 0)
 	}
 	ps := w.newPsWorld()
